@@ -61,3 +61,23 @@ Definition col (t : tbl) (j : nat) : vec := nth j (tcols t) (mkVec None None [])
 (* rows of a body column; the "..." column shows an ellipsis on every line *)
 Definition body_rows (c : colbody) : list (option nat) :=
   match c with CItems l => map row_of l | CDots n => repeat None n end.
+
+(* ---- what the header and footer of a table must state ---- *)
+
+(* the dtype token of every shown column, with [None] for the cell that stands for the hidden columns *)
+Definition shown_types (t : tbl) : list (option dtype) :=
+  let l := map (fun j => Some (tok_of (vdtype (col t j)))) (expected_cols (t_ncols t)) in
+  if cols_truncated (t_ncols t) then insert_at MAX_HEAD_COLS None l else l.
+
+(* a footer that lists dtypes lists every column's, or the first and last MAX_HEAD_COLS around a gap *)
+Definition listed_types (t : tbl) : list (option dtype) :=
+  let all := map (fun c => tok_of (vdtype c)) (tcols t) in
+  if cols_truncated (t_ncols t)
+  then map Some (firstn MAX_HEAD_COLS all) ++ [None]
+       ++ map Some (skipn (List.length all - MAX_HEAD_COLS) all)
+  else map Some all.
+
+(* the row of names: the stored name of every shown column, "..." for the hidden ones *)
+Definition shown_names (t : tbl) : list hitem :=
+  let l := map HName (expected_cols (t_ncols t)) in
+  if cols_truncated (t_ncols t) then insert_at MAX_HEAD_COLS HEll l else l.
